@@ -15,7 +15,7 @@ def kinds_for_shard(kinds, shard, nshards):
 
 
 @st.composite
-def measurement_case(draw, tier, kinds, with_ham=False, orthonormal=None, restricted_walker=None, shapes=None):
+def measurement_case(draw, tier, kinds, with_ham=False, orthonormal=None, restricted_walker=None, shapes=None, ham_kw=None):
     kind = draw(st.sampled_from(kinds))
     norb, nelec = draw(st.sampled_from(shapes[kind] if shapes else gens.shapes_for(kind, tier)))
     params = draw(gens.trial_params(kind, norb, nelec, orthonormal))
@@ -27,7 +27,7 @@ def measurement_case(draw, tier, kinds, with_ham=False, orthonormal=None, restri
     case = {"kind": kind, "norb": norb, "nelec": list(nelec), "params": params, "walker": w, "restricted": restricted}
     if with_ham:
         spin_dep = kind in ("uhf", "ghf", "noci", "multislater", "UCISD", "GCISD") and not restricted and draw(st.booleans())
-        case["ham"] = draw(gens.hamiltonian(norb, spin_dependent=spin_dep))
+        case["ham"] = draw(gens.hamiltonian(norb, spin_dependent=spin_dep, **(ham_kw or {})))
         case["spin_dependent_h1"] = spin_dep
     return case
 
